@@ -826,8 +826,29 @@ pub(crate) fn check_if_response_is_matched(
             );
                 return Err(StatusCode::MalformedProtocolMessage.with_context(errmsg));
             }
+            if reorg_count == 0 && headers[0].header().hash() != prev_request.start_hash() {
+                let errmsg = "the start block is not the requested one but no reorg blocks";
+                return Err(StatusCode::InvalidReorgHeaders.with_context(errmsg));
+            }
         }
     } else {
+        {
+            let last_number = last_header.header().number();
+            let last_last_n_header_number = headers[headers.len() - 1].header().number();
+            if last_last_n_header_number.checked_add(1) != Some(last_number) {
+                let errmsg = "the last n blocks should end at the parent of the last block";
+                return Err(StatusCode::MalformedProtocolMessage.with_context(errmsg));
+            }
+            let difficulty_boundary: U256 = prev_request.difficulty_boundary().unpack();
+            let parent_total_difficulty: U256 = headers[reorg_count + sampled_count]
+                .parent_chain_root()
+                .total_difficulty()
+                .unpack();
+            if parent_total_difficulty >= difficulty_boundary {
+                let errmsg = "the last n blocks should include all blocks after the boundary";
+                return Err(StatusCode::MalformedProtocolMessage.with_context(errmsg));
+            }
+        }
         // Check if the sampled headers are subject to requested difficulties distribution.
         let first_last_n_total_difficulty: U256 =
             headers[reorg_count + sampled_count].total_difficulty();
